@@ -114,7 +114,7 @@ def _cover_map(config):
     if not _os.path.exists(p): return {}
     return _json.load(open(p)).get('covers:' + config, {})
 
-def klex_select(kinds, defs, quick_cost=40, quick_per_def=5, thorough_cost=300, config='default', names=None, covers=()):
+def klex_select(kinds, defs, quick_cost=40, quick_per_def=5, thorough_cost=300, config='default', names=None, covers=(), always=()):
     """-> callable(tier, crate_dir) -> harness names.  Only harnesses with a measured cost are eligible: a harness whose
     cost on the unchanged tree is unknown or above the tier's budget is never scheduled (it could only time out)."""
     def sel(tier, crate_dir):
@@ -142,6 +142,8 @@ def klex_select(kinds, defs, quick_cost=40, quick_per_def=5, thorough_cost=300, 
                     if len(picked) >= quick_per_def: break
                     if h not in picked: picked.append(h)
                 out += picked
+        for h in always:       # inputs that exercise a mechanism no cheaper harness reaches (e.g. two full 8-byte batches)
+            if h in idx and costs.get(h) is not None and h not in out: out.append(h)
         # vacuity: for every required cover label schedule the cheapest harness known to satisfy it
         cm = _cover_map(config)
         for label in covers:
@@ -394,7 +396,8 @@ PLAN = {
     'C20': dict(
         level='model_checking', engine='kani',
         kani=klex_suite('K-lex read trace', SPEC_KINDS, ['B1', 'B2', 'B3', 'B5', 'B7', 'E1', 'S1', 'S2', 'U1', 'K1'],
-                        covers=['C20 monitor: at least two reads traced', 'token produced'], configs=(('verif_hooks',),),
+                        covers=['C20 monitor: at least two reads traced', 'token produced'], configs=(('verif_hooks',),), quick_per_def=6, quick_cost=60,
+                        always=['ctx_B7__23abcdefghijklmnopqrstuvwx_q_s0', 'ctx_B5_abcdefghijklmnop_q_s0'],
                         bounded=BOUND_NOTE % 'B1, B2, B3, B5, E1, S1, S2, U1, K1 with the ghost read-trace monitor of the verif_hooks feature'),
         technique='bounded model checking (Kani) with a ghost read-trace monitor (feature verif_hooks): offsets never decrease within an attempt, never fall below its start, reads <= 4 x bytes examined + 4',
         level_text='Every source read goes through LexerInternal::read, which the hook instruments; the monitor flags are asserted after each explored next(). Bounded.',
